@@ -419,6 +419,13 @@ def run(prog, chk):
     if c12.unterminated_rule(prog, r9) < 3:
         raise Broken("fewer than 3 scan functions with an end-of-input recovery found")
 
+    r10 = chk.rule("R10-failure-indicator-comes-with-its-code", "a character source that reports failure by a negative count has stored the "
+                   "reason through its error-code parameter on every such path: get_more_chars returns that variable as the result "
+                   "of the parse (shared with C17 R16)", primary=False, floor=2)
+    from .. import outcode
+    if outcode.rule(prog, r10) < 2:
+        raise Broken("no function with an error-code out-parameter and a negative failure return found")
+
     r4 = chk.rule("R4-termination-and-read-bounds", "no loop of the parser units is idempotent (call-free, without loop-carried state: "
                   "such a loop cannot make progress once entered); no pointer into the read buffer is dereferenced under `<=` "
                   "against an exclusive end", primary=False, floor=60)
